@@ -3,6 +3,7 @@ import Okane.Lemmas.ImportTxn
 import Okane.Lemmas.ImportCamtXml
 import Okane.Lemmas.ImportCamtXmlRender
 import Okane.Lemmas.ImportCamtXmlLeaves
+import Okane.Lemmas.ImportCamtOriginal
 /-!
 # C18 — Camt053 import conserves the statement
 
@@ -704,5 +705,37 @@ example : ∀ e, decEntry "" (exKids.take 2 ++ .elem "BookgDt" "" [] :: [.elem "
 example : ∀ s, decStmt "" ([] ++ .elem "Ntry" "" exKids :: .elem "TxsSummry" "" [] :: .elem "Ntry" "" exKids :: []) ≠ .ok s :=
   C18_xml_interleaved "" [] [] "Ntry" "" exKids "" exKids _ (by decide)
     ⟨stmt_unknown _ (by decide) (by decide), rfl⟩ (by intro a k h; injection h with h1; exact absurd h1 (by decide))
+
+/-! ## a detail's original amount in another currency -/
+
+/-- **C18, original amounts**: a detail (without charges) whose `AmtDtls/TxAmt` is in ANOTHER currency than the booked amount is
+imported - when it is imported at all - with that original amount as the amount of its counter posting's side
+(`transferredAmount`), signed like the detail; this holds whatever the two numbers are, in particular when they are EQUAL. -/
+theorem C18_original_amount_kept (cap : Captures) (cfg : CamtCfg) (e : CamtEntry) (d : TxDetails) (ta : TxAmount)
+    (hta : d.txAmount = some ta) (hcur : d.amount.currency ≠ ta.amount.currency)
+    (hec : e.charges = []) (hdc : d.charges = []) (t : Txn) (h : detailTxn cap cfg e d = .ok t) :
+    t.transferredAmount = some (ta.amount.toData d.cd) := by
+  unfold detailTxn at h
+  cases hw : withAmountDetails (detailBase cap cfg e d) d with
+  | ok t1 =>
+    simp [hw, hec, hdc, addCharges] at h
+    subst h
+    exact withAmountDetails_foreign _ d ta hta hcur t1 hw
+  | err x => simp [hw] at h
+  | panic x => simp [hw] at h
+  | fuelOut => simp [hw] at h
+
+/-- ... and the statement's rate is what the printed posting of the rate's target currency carries: `@ rate source` -/
+theorem C18_original_amount_rate (cap : Captures) (cfg : CamtCfg) (e : CamtEntry) (d : TxDetails) (ta : TxAmount) (x : CurrencyExchange)
+    (hta : d.txAmount = some ta) (hne : d.amount.eq ta.amount = false) (hx : ta.exchange = some x) (hst : x.source ≠ x.target)
+    (hfresh : AMap.get? (detailBase cap cfg e d).rates x.target = none)
+    (hec : e.charges = []) (hdc : d.charges = []) :
+    ∃ t, detailTxn cap cfg e d = .ok t ∧ t.rate x.target = some (Exchange.rate (Txn.asSyntaxAmount ⟨x.rate, x.source⟩)) := by
+  refine ⟨(({ detailBase cap cfg e d with rates := AMap.insert (detailBase cap cfg e d).rates x.target ⟨x.rate, x.source⟩ } : Txn).setTransferredAmount
+      (ta.amount.toData d.cd)), ?_, ?_⟩
+  · unfold detailTxn
+    rw [withAmountDetails_original_rate _ d ta x hta hne hx hst hfresh]
+    simp [hec, hdc, addCharges]
+  · simp [Txn.rate, Txn.setTransferredAmount, AMap.get?_insert_self]
 
 end Okane.Import
